@@ -259,7 +259,7 @@ fn strip_pos(item: &str) -> String {
 
 /// The text with every Emacs Lisp numeric escape (`\x` + hex digits, `\` + octal digits) whose value is 0x80..0xFF
 /// replaced by the byte it denotes (other escapes, `\\` included, are copied).
-fn inline_byte_escapes(data: &[u8]) -> Vec<u8> {
+fn inline_byte_escapes(data: &[u8], inline: bool) -> Vec<u8> {
     let mut out = Vec::with_capacity(data.len());
     let mut i = 0;
     while i < data.len() {
@@ -270,7 +270,7 @@ fn inline_byte_escapes(data: &[u8]) -> Vec<u8> {
             if radix != 0 {
                 let mut j = start; let mut v: u32 = 0;
                 while j < data.len() && (data[j] as char).to_digit(radix).is_some() && v < 0x10000 { v = v * radix + (data[j] as char).to_digit(radix).unwrap(); j += 1; }
-                if j > start && (0x80..=0xFF).contains(&v) { out.push(v as u8); i = j; continue; }
+                if inline && j > start && (0x80..=0xFF).contains(&v) { out.push(v as u8); i = j; continue; }
             }
             out.push(data[i]); out.push(c); i += 2; continue;
         }
@@ -873,7 +873,9 @@ fn check_inner(line: &str, res: &str, t: &[&str], mut m: Vec<String>) -> Vec<Str
                 // ill-formed raw sequence to what completes it (exactly the exceptions `hi` and `bl` of the Lean theorem
                 // C17_elisp_input_clause); recognised by the input being valid UTF-8 once those escapes are replaced
                 // by what they denote
-                let class = if ro.as_bytes()[6] == b'1' && std::str::from_utf8(&inline_byte_escapes(&data)).is_ok() { "[escape joins an ill-formed sequence] " } else { "" };
+                // (an input that becomes valid by dropping escaped blanks ALONE is the defect repaired by /repo 0dbf569, not
+                // the recorded finding: it gets no tag and is reported if it ever returns)
+                let class = if ro.as_bytes()[6] == b'1' && std::str::from_utf8(&inline_byte_escapes(&data, true)).is_ok() && std::str::from_utf8(&inline_byte_escapes(&data, false)).is_err() { "[escape joins an ill-formed sequence] " } else { "" };
                 m.push(format!("FAIL C17 {}input that is not valid UTF-8 was accepted without an error: {}", class, res.chars().take(120).collect::<String>()));
             }
             for it in &items {
